@@ -275,9 +275,14 @@ func (s *ServerSession) doAck(stream *Stream) error {
 	return nil
 }
 func (s *ServerSession) doUserControl(stream *Stream) error {
-	// TODO(chef): 检查buff长度有效性 202301
+	if stream.msg.Len() < 2 {
+		return base.NewErrRtmpShortBuffer(2, int(stream.msg.Len()), "ServerSession::doUserControl")
+	}
 	userControlType := bele.BeUint16(stream.msg.buff.Bytes())
 	if userControlType == uint16(base.RtmpUserControlPingRequest) {
+		if stream.msg.Len() < 6 {
+			return base.NewErrRtmpShortBuffer(6, int(stream.msg.Len()), "ServerSession::doUserControl ping request")
+		}
 		stream.msg.buff.Skip(2)
 		timestamp := bele.BeUint32(stream.msg.buff.Bytes())
 		return s.packer.writePingResponse(s.conn, timestamp)
